@@ -98,7 +98,7 @@ pub static C02: Profile = Profile {
     raw: raw4,
     build: c02_build,
     check: c02_check,
-    budget: Budget { r_cases: (2000, 40000), s_cases: (1500, 10000), s_scheds: (16, 64) },
+    budget: Budget { r_cases: (4000, 40000), s_cases: (3000, 10000), s_scheds: (16, 64) },
     liveness: false,
     enumerate: None,
     extra: None,
@@ -190,7 +190,7 @@ pub static C03: Profile = Profile {
     raw: raw3,
     build: c03_build,
     check: c03_check,
-    budget: Budget { r_cases: (2000, 30000), s_cases: (1000, 8000), s_scheds: (16, 64) },
+    budget: Budget { r_cases: (4000, 30000), s_cases: (2000, 8000), s_scheds: (16, 64) },
     liveness: false,
     enumerate: None,
     extra: None,
@@ -205,6 +205,7 @@ pub fn c07_build(raw: &Raw, _tier: Tier, _sched: bool) -> Scenario {
     o.mws = (0, 3);
     o.verdicts = true;
     o.runtime_add = true;
+    o.unsubs = true;
     o.effects = true;
     gen_pipeline(raw, &o)
 }
@@ -214,6 +215,10 @@ pub fn c07_check(scn: &Scenario, h: &History) -> Outcome {
     let Some((d, p)) = prepare("C07", false, scn, h, &mut out) else { return out };
     for m in findings_of(&p, &[Kind::Phase]) {
         out.viol(m);
+    }
+    // "a subscriber registered before an action is dispatched is never left out of its pipeline"
+    for f in p.findings.iter().filter(|f| f.kind == Kind::Notify && f.msg.contains("was not notified")) {
+        out.viol(format!("[Notify] store {} @{}: {}", f.store, f.pos, f.msg));
     }
     note_others(&p, &[Kind::Phase], &mut out);
     for (s, sd) in d.stores.iter().enumerate() {
@@ -257,7 +262,7 @@ pub static C07: Profile = Profile {
     raw: raw4,
     build: c07_build,
     check: c07_check,
-    budget: Budget { r_cases: (2000, 30000), s_cases: (1000, 8000), s_scheds: (16, 64) },
+    budget: Budget { r_cases: (4000, 30000), s_cases: (2000, 8000), s_scheds: (16, 64) },
     liveness: false,
     enumerate: None,
     extra: None,
@@ -279,7 +284,7 @@ pub fn c08_build(raw: &Raw, _tier: Tier, _sched: bool) -> Scenario {
     // sometimes a channeled reader too
     if knob(raw, 11) % 2 == 0 {
         let id = s.subs.iter().map(|x| x.id + 1).max().unwrap_or(0);
-        s.subs.push(SubSpec { id, kind: SubKind::Channeled { cap: 1 + (knob(raw, 12) % 3) as usize, pol: Pol::Block, default_ctor: false }, reads_state: true, gate: None, stall: Stall::None });
+        s.subs.push(SubSpec { id, kind: SubKind::Channeled { cap: 1 + (knob(raw, 12) % 3) as usize, pol: Pol::Block, default_ctor: false }, reads_state: true, gate: None, stall: Stall::None, via_trait: false });
         s.prelude.push(Op::Subscribe { store: 0, sub: id });
     }
     s
@@ -295,7 +300,8 @@ struct Read {
 
 pub fn c08_check(scn: &Scenario, h: &History) -> Outcome {
     let mut out = Outcome::default();
-    let Some((d, p)) = prepare("C08", false, scn, h, &mut out) else { return out };
+    // a get_state() that never returns (e.g. from inside a hook) is a violation: deadlock => violation
+    let Some((d, p)) = prepare("C08", true, scn, h, &mut out) else { return out };
     note_others(&p, &[], &mut out);
     for s in 0..d.stores.len() {
         let runs = &p.runs[s];
@@ -324,7 +330,7 @@ pub fn c08_check(scn: &Scenario, h: &History) -> Outcome {
             }
         }
         let mut open_not: HashMap<(SubId, ActId, Tid), Pos> = HashMap::new();
-        let mut open_mw: HashMap<(CompId, ActId), Pos> = HashMap::new();
+        let mut open_mw: HashMap<(CompId, ActId, Hook), Pos> = HashMap::new();
         for (pos, r) in h.recs.iter().enumerate() {
             match &r.ev {
                 Ev::NotIn { sub, act, .. } if d.store_of_act(*act) == s => {
@@ -335,12 +341,12 @@ pub fn c08_check(scn: &Scenario, h: &History) -> Outcome {
                         reads.push(Read { inv: inp, ret: pos, val: *v, what: format!("get_state() inside on_notify of subscriber {} for action {}", sub, act), in_callback_of: Some(*act) });
                     }
                 }
-                Ev::MwIn { comp, act, hook: Hook::BeforeDispatch, .. } if d.store_of_act(*act) == s => {
-                    open_mw.insert((*comp, *act), pos);
+                Ev::MwIn { comp, act, hook, .. } if d.store_of_act(*act) == s => {
+                    open_mw.insert((*comp, *act, *hook), pos);
                 }
-                Ev::MwOut { comp, act, hook: Hook::BeforeDispatch, read: Some(v), .. } if d.store_of_act(*act) == s => {
-                    if let Some(inp) = open_mw.remove(&(*comp, *act)) {
-                        reads.push(Read { inv: inp, ret: pos, val: *v, what: format!("get_state() inside before_dispatch of middleware {} for action {}", comp, act), in_callback_of: None });
+                Ev::MwOut { comp, act, hook, read: Some(v), .. } if d.store_of_act(*act) == s => {
+                    if let Some(inp) = open_mw.remove(&(*comp, *act, *hook)) {
+                        reads.push(Read { inv: inp, ret: pos, val: *v, what: format!("get_state() inside {:?} of middleware {} for action {}", hook, comp, act), in_callback_of: None });
                     }
                 }
                 _ => {}
@@ -423,8 +429,8 @@ pub static C08: Profile = Profile {
     raw: raw4,
     build: c08_build,
     check: c08_check,
-    budget: Budget { r_cases: (2000, 30000), s_cases: (1000, 8000), s_scheds: (16, 64) },
-    liveness: false,
+    budget: Budget { r_cases: (4000, 30000), s_cases: (2000, 8000), s_scheds: (16, 64) },
+    liveness: true,
     enumerate: None,
     extra: None,
     assumptions: &["states are identified by their 64-bit hash chain value"],
